@@ -11,6 +11,7 @@ import (
 	"sort"
 	"strings"
 	"sync"
+	"sync/atomic"
 	"time"
 
 	"golang.org/x/sys/unix"
@@ -302,6 +303,117 @@ func runJailProbeJob(j *Job, res *JobResult) {
 				break
 			}
 			_ = os.WriteFile(top+"/mounted", old, 0o644)
+		}
+	}()
+	// ---- bigdir: a layer that whites out (or replaces) a directory with many entries — whatever does the removing does
+	//      it inside the jail: the arena's own objects at the same absolute paths stay
+	func() {
+		const root = "/w/.big/root"
+		_ = os.MkdirAll(root+"/jpbig/sub", 0o755)
+		_ = os.MkdirAll("/jpbig/sub", 0o755)
+		defer os.RemoveAll("/jpbig")
+		for i := 0; i < 700; i++ {
+			n := fmt.Sprintf("f%04d", i)
+			_ = os.WriteFile(root+"/jpbig/"+n, []byte("in"), 0o644)
+			_ = os.WriteFile("/jpbig/"+n, []byte("host"), 0o644)
+		}
+		for i := 0; i < 20; i++ {
+			n := fmt.Sprintf("g%02d", i)
+			_ = os.WriteFile(root+"/jpbig/sub/"+n, []byte("in"), 0o644)
+			_ = os.WriteFile("/jpbig/sub/"+n, []byte("host"), 0o644)
+		}
+		before, err := scanWorld("/jpbig")
+		if err != nil {
+			skip("bigdir", err)
+			return
+		}
+		out.Ran = append(out.Ran, "bigdir")
+		for _, variant := range []string{"whiteout", "replace", "opaque"} {
+			var buf bytes.Buffer
+			tw := tar.NewWriter(&buf)
+			switch variant {
+			case "whiteout":
+				_ = tw.WriteHeader(&tar.Header{Name: ".wh.jpbig", Typeflag: tar.TypeReg, Mode: 0o644})
+			case "replace":
+				_ = tw.WriteHeader(&tar.Header{Name: "jpbig", Typeflag: tar.TypeReg, Mode: 0o644, Size: 1})
+				_, _ = tw.Write([]byte("r"))
+			default:
+				_ = tw.WriteHeader(&tar.Header{Name: "jpbig/", Typeflag: tar.TypeDir, Mode: 0o755})
+				_ = tw.WriteHeader(&tar.Header{Name: "jpbig/.wh..wh..opq", Typeflag: tar.TypeReg, Mode: 0o644})
+			}
+			_ = tw.Close()
+			_, aerr := chrootarchive.ApplyUncompressedLayer(root, bytes.NewReader(buf.Bytes()), nil)
+			time.Sleep(50 * time.Millisecond) // stragglers of a removal that was handed to other goroutines
+			after, err := scanWorld("/jpbig")
+			if err != nil || renderTree(before) != renderTree(after) {
+				prob("C01 large directory: a chrooted layer apply (%s of a directory with 700 entries under the root %s; result %v) changed /jpbig, the directory of the same absolute name outside the root%s", variant, root, aerr, twinDiff(renderTree(before), after))
+				break
+			}
+			// put the inside back for the next variant
+			_ = os.RemoveAll(root + "/jpbig")
+			_ = os.MkdirAll(root+"/jpbig/sub", 0o755)
+			for i := 0; i < 700; i++ {
+				_ = os.WriteFile(root+"/jpbig/"+fmt.Sprintf("f%04d", i), []byte("in"), 0o644)
+			}
+		}
+	}()
+	// ---- deeproot: a root whose path is longer than PATH_MAX components allow in one go: the calls may refuse it, the
+	//      working directory the rest of the process sees stays what it was while they run
+	func() {
+		comp := strings.Repeat("d", 200)
+		deep := "/w/.deep"
+		_ = os.MkdirAll(deep, 0o755)
+		cwd0, _ := os.Getwd()
+		if err := os.Chdir(deep); err != nil {
+			skip("deeproot", err)
+			return
+		}
+		made := true
+		for i := 0; i < 22 && made; i++ { // 22 * 201 > 4096
+			if err := os.Mkdir(comp, 0o755); err != nil {
+				made = false
+				break
+			}
+			if err := os.Chdir(comp); err != nil {
+				made = false
+			}
+			deep += "/" + comp
+		}
+		_ = os.Chdir(cwd0)
+		if !made {
+			skip("deeproot", fmt.Errorf("could not build a %d-byte path", len(deep)))
+			return
+		}
+		out.Ran = append(out.Ran, "deeproot")
+		var stop atomic.Bool
+		var seen atomic.Value
+		done := make(chan struct{})
+		go func() {
+			defer close(done)
+			runtime.LockOSThread()
+			defer runtime.UnlockOSThread()
+			for !stop.Load() {
+				if d, err := os.Getwd(); err == nil && d != cwd0 {
+					seen.Store(d)
+				} else if err != nil {
+					seen.Store("getwd: " + err.Error())
+				}
+				time.Sleep(100 * time.Microsecond)
+			}
+		}()
+		for i := 0; i < 5; i++ {
+			_ = chrootarchive.UntarUncompressed(bytes.NewReader(small), deep, nil)
+			_, _ = chrootarchive.ApplyUncompressedLayer(deep, bytes.NewReader(small), nil)
+		}
+		stop.Store(true)
+		<-done
+		if v := seen.Load(); v != nil {
+			s := v.(string)
+			prob("C13 long root: while chrooted calls ran on a root of %d bytes, another thread saw the working directory %q…, before and after it is %s", len(deep), s[:min(len(s), 60)], cwd0)
+		}
+		if d, _ := os.Getwd(); d != cwd0 {
+			prob("C13 long root: after chrooted calls on a root of %d bytes the working directory of the process is no longer %s", len(deep), cwd0)
+			_ = os.Chdir(cwd0)
 		}
 	}()
 	// ---- nilopts: calls with nil options are independent of each other (nothing a call writes into "its"
